@@ -7,7 +7,11 @@
  *               debug port until the debug thread has finished.
  *   DebugThread debugger/mod.rs: while !flag { listen; accept; session: select over
  *               {client message, client EOF, shutdown handler}; }.
- *   Client      one of the enumerated histories (session state x order), chosen nondeterministically.
+ *   Context     the LspContext mutex: Main holds it while it handles a message - for `shutdown` that
+ *               is until `exit` has arrived, because Connection::handle_shutdown waits for it inside
+ *               the handler - and a new session needs it to register its shutdown handler.
+ *   Client      one of the enumerated histories (session state x order), chosen nondeterministically;
+ *               orders 7-9 attach a debugger only after `shutdown` / `exit` / closing the pipe.
  *   Watchdog    `timeout` = no process can move: if Main has not finished, that is a HANG.
  *
  * Every reachable (state, order, outcome) triple is printed by embedded C code (once).
@@ -18,10 +22,11 @@ c_decl {
 \#include <string.h>
 }
 c_code {
-static char seen[8][8][4];
+static char seen[8][12][4];
 static const char *STATE_NAME[] = {"NoDebugger", "AttachedIdle", "TestRunning", "TestPaused", "TestFinished"};
 static const char *ORDER_NAME[] = {"shutdown,exit", "close-stdin", "disconnect,shutdown,exit", "shutdown,disconnect,exit",
-                                   "shutdown,exit,disconnect", "close-stdin,close-tcp", "close-tcp,shutdown,exit"};
+                                   "shutdown,exit,disconnect", "close-stdin,close-tcp", "close-tcp,shutdown,exit",
+                                   "shutdown,connect,exit", "shutdown,exit,connect", "close-stdin,connect"};
 static const char *OUT_NAME[] = {"exit-0", "HANG", "exit-101"};
 static void triple(int s, int o, int x) {
     if (!seen[s][o][x]) { seen[s][o][x] = 1; printf("TRIPLE %s %s %s\n", STATE_NAME[s], ORDER_NAME[o], OUT_NAME[x]); }
@@ -45,8 +50,19 @@ bool dbg_finished = false;
 bool main_done = false;
 bool tcp_open = false;   /* the debugger's TCP connection is open */
 bool dummy = false;      /* the current session was accepted from Main's dummy connect */
+bool ctx_locked = false; /* the LspContext mutex */
+bool shutting_down = false; /* ShutdownManager: the handlers have been invoked (IMPL_REMEMBERS only) */
+
+/* 1 = the ShutdownManager remembers that shutdown was announced and tells late registrations at once */
+#ifndef IMPL_REMEMBERS
+#define IMPL_REMEMBERS 1
+#endif
+
+inline lock()   { atomic { !ctx_locked -> ctx_locked = true } }
+inline unlock() { ctx_locked = false }
 
 inline invoke_handlers() {
+    shutting_down = true;
     if
     :: handler_registered && nfull(handler) -> handler!1
     :: !handler_registered || full(handler) -> skip
@@ -58,14 +74,21 @@ proctype Main() {
     do
     :: stdin_ch?m ->
         if
-        :: m == m_shutdown -> invoke_handlers(); resp_ch!m_shutdown
+        :: m == m_shutdown ->
+            lock();
+            invoke_handlers(); resp_ch!m_shutdown;
+            /* Connection::handle_shutdown: wait for `exit` with the context still locked; the reader
+               thread stops after `exit`, which ends the message loop */
+            stdin_ch?m;
+            unlock();
+            break
         :: m == m_exit -> break
         :: m == m_eof -> break
-        :: else -> skip
+        :: else -> lock(); unlock()
         fi
     od;
     /* after the message loop */
-    invoke_handlers();
+    lock(); invoke_handlers(); unlock();
     /* connection closed, IO threads joined (they only depend on the sender being dropped) */
     flag = true;
     do
@@ -75,7 +98,8 @@ proctype Main() {
         :: conn_req!0                /* dummy connect, closed right away */
         :: !listening -> skip        /* the listener is gone again: connection refused */
         fi
-    :: !dbg_finished && !listening -> skip           /* connection refused, sleep, retry  */
+    /* (connection refused, sleep, retry: a wait until one of the two guards holds - written as
+       blocking, so that "Main polls forever" shows up as `timeout` and not as an endless run) */
     od;
     main_done = true;
     c_code { triple(now.st, now.ord, 0); }
@@ -90,7 +114,12 @@ proctype DebugThread() {
         conn_req?who;                    /* accept() */
         listening = false;
         dummy = (who == 0);
-        handler_registered = true;
+        /* LspContext::add_shutdown_handler (lock, insert, unlock) */
+        atomic { !ctx_locked -> handler_registered = true;
+                 if
+                 :: IMPL_REMEMBERS && shutting_down && nfull(handler) -> handler!1
+                 :: !IMPL_REMEMBERS || !shutting_down || full(handler) -> skip
+                 fi }
         /* session */
         do
         :: dummy -> break                              /* the dummy connection is closed at once: EOF */
@@ -119,10 +148,14 @@ proctype Client() {
     if
     :: ord = 0 :: ord = 1
     :: st != 0 -> ord = 2 :: st != 0 -> ord = 3 :: st != 0 -> ord = 4 :: st != 0 -> ord = 5 :: st != 0 -> ord = 6
+    :: st == 0 -> ord = 7 :: st == 0 -> ord = 8 :: st == 0 -> ord = 9
     fi;
     /* set up the session */
     if
-    :: st != 0 -> conn_req!1; tcp_open = true
+    :: st != 0 -> conn_req!1; tcp_open = true;
+                  /* "attached" = the client has seen a response (initialize, launch, ...), which the
+                     session sends from its loop, i.e. after it has registered its shutdown handler */
+                  (handler_registered && !dummy)
     :: else -> skip
     fi;
     /* the shutdown history; messages to a process that is gone are simply lost */
@@ -136,6 +169,14 @@ proctype Client() {
     :: ord == 5 -> stdin_ch!m_eof;
                    if :: nfull(tcp) -> tcp!m_eof :: full(tcp) -> skip fi
     :: ord == 6 -> tcp!m_eof; stdin_ch!m_shutdown; resp_ch?_; stdin_ch!m_exit
+    /* a debugger that attaches late and stays connected (a refused connection is no session) */
+    :: ord == 7 -> stdin_ch!m_shutdown; resp_ch?_;
+                   if :: conn_req!1 -> tcp_open = true :: dbg_finished -> skip fi;
+                   stdin_ch!m_exit
+    :: ord == 8 -> stdin_ch!m_shutdown; resp_ch?_; stdin_ch!m_exit;
+                   if :: conn_req!1 -> tcp_open = true :: dbg_finished -> skip fi
+    :: ord == 9 -> stdin_ch!m_eof;
+                   if :: conn_req!1 -> tcp_open = true :: dbg_finished -> skip fi
     fi
 }
 
